@@ -6,6 +6,7 @@ import (
 	"net"
 	"os"
 	"path/filepath"
+	"runtime"
 	"strings"
 	"sync"
 	"sync/atomic"
@@ -326,7 +327,10 @@ func childC06(args []string) int {
 			go func(caller int) {
 				defer wg.Done()
 				atomic.AddInt32(&gate, 1)
-				for atomic.LoadInt32(&gate) < int32(callers) {
+				for spins := 0; atomic.LoadInt32(&gate) < int32(callers); spins++ {
+					if spins > 20000 {
+						runtime.Gosched() // more spinners than free processors
+					}
 				}
 				h := batched.NewHandler(sock, opts)
 				m := model.New(st.Now)
